@@ -5,6 +5,11 @@ V = os.path.dirname(os.path.dirname(os.path.abspath(__file__)))
 
 # id -> dict(level, engine, technique, text, note, design)
 CLAIMED = {
+ "C11": dict(level="exploration", engine="lib-inproc + vsh-virtual",
+   technique="(A) lock-step merge-model monitor over TrapSet histories on the real Concurrent<VirtualSystem> (kernel dispositions read back); (B) offline event-log checker over scripts with SIGUSR1 deliveries injected from outside at every scheduler step and preemption point",
+   text="A: all TrapSet histories to depth 4 (quick) / 6 over set_action (3 actions x override) on 4 signals + KILL/STOP + EXIT, peek, enable/disable of each internal disposition group, enter_subshell with each option pair, x 4 sets of signals ignored on entry; kernel disposition of 10 signals, listed trap action and set_action outcome compared with the merge model after every step. B: 300 (quick) / 5000 generated scripts; one delivery at every scheduler step of the FIFO run, random pairs, and random multi-delivery runs under random preempting schedules (~10^5 deliveries quick); the checker enforces one trap run per delivery window, none without delivery, correct $? at action start, no re-entry, $? and control flow of the script unchanged, trap within one command boundary.",
+   note="Trusted: the merge model (default<ignore<catch, POSIX 2.12 subshell rules); standard signals coalesce while pending; deliveries target the main shell process only; `wait` interrupted by a trap is covered only through the >128 tolerance (see DESIGN).",
+   design="5/C11"),
  "C08": dict(level="exploration", engine="vsh-virtual",
    technique="state-snapshot monitor: deep snapshots of the shell (variables+attributes, positional parameters, functions, aliases, options, traps, cwd, umask, fd table with open-file-description identity, kernel dispositions and mask) before/after in the parent and at subshell entry, under FIFO and random preempting schedules",
    text="Every one of 40 mutators inside every one of 11 subshell kinds (incl. a substitution forked while a caught signal is pending and a subshell forked inside a trap action) under 2 initial states x FIFO + 2/9 random schedules, then 4*10^4 (quick) / 10^6 random mutator sequences; parent-before == parent-after on all 11 facets, child-entry == parent with command traps reset (and INT/QUIT ignored for asynchronous lists).",
